@@ -20,6 +20,24 @@ Definition fail (s : wstate) (code : Z) : wstate :=
 Definition adv (s : wstate) (n : Z) : wstate :=
   {| ws_off := ws_off s + n; ws_org := ws_org s; ws_mode := ws_mode s; ws_labels := ws_labels s; ws_equs := ws_equs s; ws_err := ws_err s; ws_k := ws_k s + 1 |}.
 
+(** far jump to an absolute pointer (SDM: JMP ptr16:16 / ptr16:32, opcode EA, offset in the operand size then a 16-bit
+    selector; a 66h prefix toggles the operand size): (selector, offset, length, offset width in bits) *)
+Definition decode_farjmp (m : bmode) (bs : list byte) : option (Z * Z * Z * Z) :=
+  let '(p66, r) := match bs with 102 :: r => (true, r) | _ => (false, bs) end in
+  let os := opsize m p66 in
+  let w := if os =? 16 then 2%nat else 4%nat in
+  match r with
+  | 234 :: r1 =>
+      match take w r1, take 2 (skipn w r1) with
+      | Some o, Some sg => Some (le_decode sg, le_decode o, (if p66 then 1 else 0) + 1 + Z.of_nat w + 2, os)
+      | _, _ => None
+      end
+  | _ => None
+  end.
+
+Definition far_operand (ops : list exp) : option (exp * exp) :=
+  match ops with [ESeg _ l (Some r)] => Some (l, r) | _ => None end.
+
 Definition instr_len (m : bmode) (name : string) (bs : list Z) : option Z :=
   if is_jump_name name then match decode_branch m bs with Some b => Some (b_len b) | None => None end
   else match decode m bs with Some (_, n) => Some n | None => None end.
@@ -53,6 +71,8 @@ Definition walk1 (img : list Z) (s : wstate) (st : stmt) : wstate :=
       | None =>
           if String.eqb op "RESB" || String.eqb op "ALIGNB" then
             match stmt_size a (ws_equs s) (ws_labels s) st with Some n => adv s n | None => fail s 2 end
+          else if String.eqb op "JMP" && (match far_operand ops with Some _ => true | None => false end) then
+            match decode_farjmp (ws_mode s) (skipn (Z.to_nat (ws_off s)) img) with Some (_, _, n, _) => adv s n | None => fail s 1 end
           else match instr_len (ws_mode s) op (skipn (Z.to_nat (ws_off s)) img) with Some n => adv s n | None => fail s 1 end
       end
   end.
@@ -82,7 +102,16 @@ Definition walk2 (labels : smap) (img : list Z) (s : wstate) (st : stmt) : wstat
       else match width_of op with
       | Some w => if check_data w rho img (ws_off s) ops then walk1 img s st else fail s 3
       | None =>
-          if is_jump_name op then
+          if String.eqb op "JMP" && (match far_operand ops with Some _ => true | None => false end) then
+            match decode_farjmp (ws_mode s) here, far_operand ops with
+            | Some (sg, off, n, os), Some (l, r) =>
+                match aeval rho l, aeval rho r with
+                | Some vs, Some vo => if (sg =? vs mod 2 ^ 16) && (off =? vo mod 2 ^ os) then adv s n else fail s 6
+                | _, _ => fail s 2
+                end
+            | _, _ => fail s 1
+            end
+          else if is_jump_name op then
             match decode_branch (ws_mode s) here, kind_of_name op, ops with
             | Some b, Some k, [e] =>
                 match aeval rho e with
